@@ -93,6 +93,12 @@ fn script(tid: u64, seed: u64, rounds: u64, focus: u64) -> Vec<(usize, String)> 
         if is_c(it) {
             s.push((it, format!("chacha seek {} u64 {}", it, off_a(seed, tid, it as u64))));
             s.push((it, format!("chacha applypat {} {} {}", it, 320 + len_a(seed, tid, it as u64), sd)));
+            // one bulk request (> 64 KiB, digest only) by the first three threads on the ChaCha20 item: anything
+            // a large call stages in shared memory shows here (the noise threads of `child_main` keep such
+            // calls in flight all the time); kept small because the Lean model computes the same bytes
+            if ITEMS[it].1 == "chacha20" && tid < 3 {
+                s.push((it, format!("chacha applysum {} {}", it, 66048)));
+            }
         } else {
             s.push((it, format!("{} updpat {} {} {}", fam, it, len_a(seed, tid, it as u64), sd)));
             s.push((it, format!("{} fin {}", fam, it)));
@@ -159,7 +165,46 @@ pub fn child_main(args: &[String]) -> i32 {
             let _ = crate::step(&mut ctx, &toks);
         }
     }
-    let barrier = Arc::new(Barrier::new(n as usize));
+    // NOISE threads: they join the cold-start race like every other thread and then keep LARGE calls of every
+    // family in flight (1 MiB keystream requests, 1 MiB hash updates) on instances of their own until the
+    // measured threads are done; their results are not looked at.  Whatever a large call shares between
+    // instances (a static staging buffer, a cached pointer) is then in use while the measured calls run.
+    const NOISE: usize = 3;
+    let stop = Arc::new(std::sync::atomic::AtomicBool::new(false));
+    let barrier = Arc::new(Barrier::new(n as usize + NOISE));
+    let mut noise = Vec::new();
+    for k in 0..NOISE {
+        let b = barrier.clone();
+        let st = stop.clone();
+        let h = std::thread::Builder::new().name(format!("noise-{}", k)).spawn(move || {
+            let mut ctx = fresh_ctx();
+            let lines: Vec<String> = vec![
+                format!("chacha new 900 chacha20 {} {}", hex(&pat_bytes(k as u64 + 7, 32)), hex(&pat_bytes(k as u64 + 9, 8))),
+                "chacha applysum 900 1048576".to_string(),
+                "chacha new 901 chacha8 0000000000000000000000000000000000000000000000000000000000000000 0000000000000000".to_string(),
+                "chacha applysum 901 1048576".to_string(),
+                "blake new 902 512".to_string(), "blake updpat 902 1048576 3".to_string(), "blake fin 902".to_string(),
+                "jh new 903 256".to_string(), "jh updpat 903 1048576 3".to_string(), "jh fin 903".to_string(),
+                "skein new 904 512-64".to_string(), "skein updpat 904 1048576 3".to_string(), "skein fin 904".to_string(),
+                "groestl new 905 256".to_string(), "groestl updpat 905 1048576 3".to_string(), "groestl fin 905".to_string(),
+            ];
+            b.wait();
+            let mut i = k * 2;
+            while !st.load(std::sync::atomic::Ordering::Relaxed) {
+                let line = &lines[i % lines.len()];
+                let toks: Vec<&str> = line.split_whitespace().collect();
+                let _ = crate::step(&mut ctx, &toks);
+                i += 1;
+            }
+        });
+        match h {
+            Ok(h) => noise.push(h),
+            Err(_) => {
+                println!("panic");
+                std::process::exit(3);
+            }
+        }
+    }
     let mut handles = Vec::new();
     for tid in 0..n {
         let b = barrier.clone();
@@ -199,8 +244,15 @@ pub fn child_main(args: &[String]) -> i32 {
             }
             Err(_) => {
                 println!("panic");
-                return 4;
+                std::process::exit(4);
             }
+        }
+    }
+    stop.store(true, std::sync::atomic::Ordering::Relaxed);
+    for h in noise {
+        if h.join().is_err() {
+            println!("panic");
+            return 5;
         }
     }
     print!("{}", out);
